@@ -40,6 +40,7 @@ type Case struct {
 	Obs  *Obs
 	Solos []MockObs
 	SoloIdx []int
+	SoloErrs int // solo generations whose output does not type-check
 }
 
 // NameRec is one parameter whose naming C13 judges.
@@ -70,6 +71,7 @@ type caseRec struct {
 	Names      []NameRec  `json:"names"`
 	Solo       []MockObs  `json:"solo"`
 	SoloIdx    []int      `json:"soloIdx"`
+	SoloErrs   int        `json:"soloErrs"`
 	FailingWriter bool    `json:"failingWriter"`
 	Obs        *Obs       `json:"obs"`
 }
@@ -207,6 +209,9 @@ func RunCases(sc *core.Scratch, ev *core.Evidence, tag string, cases []*Case) (*
 			cfg := s.c.Cfg
 			cfg.Args = []string{s.c.Cfg.Args[s.arg]}
 			so := Project(w, s.c.Src, &cfg, &resps[i])
+			if so.Exit == "ok" && len(so.TypeErrors) > 0 {
+				s.c.SoloErrs++
+			}
 			if so.Exit == "ok" && len(so.Mocks) == 1 {
 				s.c.Solos = append(s.c.Solos, so.Mocks[0])
 				s.c.SoloIdx = append(s.c.SoloIdx, s.arg+1)
@@ -284,7 +289,7 @@ func JudgeCases(sc *core.Scratch, ev *core.Evidence, tag string, cases []*Case) 
 			exp = c.Src.Name
 		}
 		rec := caseRec{Case: c.ID, Origin: c.Origin, Judge: c.Judge, ExpectPkg: exp, Cfg: c.Cfg, SrcAliases: c.srcAliases(), Names: c.Names,
-			Solo: c.Solos, SoloIdx: c.SoloIdx, Obs: c.Obs, FailingWriter: c.FailAfter != nil}
+			Solo: c.Solos, SoloIdx: c.SoloIdx, SoloErrs: c.SoloErrs, Obs: c.Obs, FailingWriter: c.FailAfter != nil}
 		if rec.Names == nil {
 			rec.Names = []NameRec{}
 		}
